@@ -174,7 +174,7 @@ fn e2e_strategy(tier: Tier, backward_restart: bool, crash_ok: bool) -> BoxedStra
                 2 => Just(IOp::Flush),
                 1 => Just(IOp::Compact),
                 1 => Just(IOp::Restart),
-                1 => Just(if crash_ok { IOp::Kill } else { IOp::Check }),
+                2 => Just(IOp::Kill),
                 3 => Just(IOp::Check),
             ];
             (Just(cfg), Just(n_ctx), prop::collection::vec(op, 8..=tier.pick(50, 90)))
@@ -199,7 +199,30 @@ fn e2e_strategy(tier: Tier, backward_restart: bool, crash_ok: bool) -> BoxedStra
                     }
                 }
             }
-            E2eCase { cfg, n_ctx, ops }
+            // SIGKILL + WAL recovery: every id is read right before the kill (so that a changed id is seen). While C01's
+            // findings about manual FLUSH / clean restart / compaction / a second crash are open, only the first kill of a
+            // history is kept, and only if none of those operations precedes it (events may be lost there, which is C01's).
+            let mut out = Vec::with_capacity(ops.len() + 4);
+            let mut tainted = false;
+            for op in ops {
+                match op {
+                    IOp::Kill => {
+                        if crash_ok || !tainted {
+                            out.push(IOp::Check);
+                            out.push(IOp::Kill);
+                        } else {
+                            out.push(IOp::Check);
+                        }
+                        tainted = true;
+                    }
+                    IOp::Flush | IOp::Restart | IOp::Compact => {
+                        tainted = true;
+                        out.push(op);
+                    }
+                    o => out.push(o),
+                }
+            }
+            E2eCase { cfg, n_ctx, ops: out }
         })
         .boxed()
 }
